@@ -1,5 +1,6 @@
 \* core level, spec -> code: every distinct state printed with the calls that reach it
 CONSTANTS
+  UseDb = TRUE
   Cores <- CoresEmit
   Designs <- NoTriples
   Growths <- G3
@@ -8,6 +9,8 @@ CONSTANTS
   BreakStep = 1
   FromInput <- FromNone
   ExplicitTargets = FALSE
+  Replacements <- NoRepl
+  Edits <- NoEdits
   Refusals = FALSE
   ZeroHeightRefused = TRUE
   AlignTarget = FALSE
